@@ -104,6 +104,8 @@ impl<'a, R: FsModuleResolver> ImportsVisitor<'a, R> {
 }
 
 impl<R: FsModuleResolver> Visit for ImportsVisitor<'_, R> {
+    // `export` inside a namespace / module block exports a member of that namespace, not of the file
+    fn visit_ts_module_decl(&mut self, _n: &swc_ecma_ast::TsModuleDecl) {}
     fn visit_export_default_expr(&mut self, n: &ExportDefaultExpr) {
         self.symbol_exports.set_default_export(
             SymbolExportDefault::Expr {
